@@ -3,42 +3,56 @@
     lemma proved in [proofs/P_C03.v], with [Print Assumptions] beneath it.
     Model: [model/M_C03.v] (transcribed from blockstore/validating_blockstore.go,
     filestore/fsrefstore.go, filestore/filestore.go; tied to the code by the
-    correspondence check of ./check C03).  The hash function [H] is universally
-    quantified in every theorem (it is never an axiom). *)
+    correspondence check of ./check C03).  The hash function [H] (partial: [None] = no
+    digest can be computed for that prefix) is universally quantified in every
+    theorem (it is never an axiom). *)
 From Coq Require Import List NArith ZArith Bool.
 From V Require Import lib.Verdict model.M_C03 proofs.P_C03.
 Import ListNotations.
 Open Scope N_scope.
 
-(** For EVERY hash function, EVERY content of the backing store and EVERY CID:
-    the validating blockstore returns a block only if its bytes hash to the
-    requested CID (and they are the stored bytes). *)
-Theorem C03_get_sound : forall (B : Type) (H : N -> B -> bytes) backing c b,
-  vget B H backing c = OOk b -> sum B H (c_pref c) b = c /\ backing = Some b.
+(** For EVERY (partial) hash function, EVERY content of the backing store and
+    EVERY CID: the validating blockstore returns a block if and only if the
+    backing store holds exactly these bytes and their digest under the CID's
+    prefix is computable and equals the CID's digest. *)
+Theorem C03_get_sound : forall (B : Type) (H : N -> B -> option bytes) backing c b,
+  vget B H backing c = OOk b -> sum B H (c_pref c) b = Some c /\ backing = Some b.
 Proof. exact vget_sound. Qed.
 Print Assumptions C03_get_sound.
 
+Theorem C03_get_ok_iff : forall (B : Type) (H : N -> B -> option bytes) backing c b,
+  vget B H backing c = OOk b <-> backing = Some b /\ H (c_pref c) b = Some (c_digest c).
+Proof. exact vget_ok_iff. Qed.
+Print Assumptions C03_get_ok_iff.
+
 (** ... and it reports an error otherwise: every stored content whose digest
     differs from the requested one (any flip / truncation / extension that is not
-    a hash collision) gives ErrHashMismatch; the intact block is returned. *)
-Theorem C03_get_corrupted : forall (B : Type) (H : N -> B -> bytes) c b',
-  H (c_pref c) b' <> c_digest c -> vget B H (Some b') c = OHashMismatch.
+    a hash collision) gives ErrHashMismatch; when NO digest can be computed for
+    the requested CID (unknown or hasher-less multihash code, a digest length the
+    function cannot deliver) the answer is an error too — never the stored bytes. *)
+Theorem C03_get_corrupted : forall (B : Type) (H : N -> B -> option bytes) c b' d,
+  H (c_pref c) b' = Some d -> d <> c_digest c -> vget B H (Some b') c = OHashMismatch.
 Proof. exact vget_corrupted. Qed.
 Print Assumptions C03_get_corrupted.
 
-Theorem C03_get_intact : forall (B : Type) (H : N -> B -> bytes) pref b,
-  vget B H (Some b) (sum B H pref b) = OOk b.
+Theorem C03_get_uncomputable : forall (B : Type) (H : N -> B -> option bytes) c b',
+  H (c_pref c) b' = None -> vget B H (Some b') c = OOther.
+Proof. exact vget_uncomputable. Qed.
+Print Assumptions C03_get_uncomputable.
+
+Theorem C03_get_intact : forall (B : Type) (H : N -> B -> option bytes) pref b d,
+  H pref b = Some d -> vget B H (Some b) (Cid pref d) = OOk b.
 Proof. exact vget_intact. Qed.
 Print Assumptions C03_get_intact.
 
 (** File references: for EVERY state [f] of the referenced path at read time —
     i.e. after ANY modification, truncation, extension, removal or replacement
     since the reference was written — both readers hand out data only if it is
-    the region [offset, offset+size) of the file as it is now and that region
-    hashes to the reference's CID. *)
-Theorem C03_fs_sound : forall (H : N -> bytes -> bytes) allow r f off size want b,
+    the region [offset, offset+size) of the file as it is now and that region is
+    known to hash to the reference's CID. *)
+Theorem C03_fs_sound : forall (H : N -> bytes -> option bytes) allow r f off size want b,
   fs_read H allow r f off size want = OOk b ->
-  sum bytes H (c_pref want) b = want /\ read_at r f off size = inl b /\ allow = true /\
+  sum bytes H (c_pref want) b = Some want /\ read_at r f off size = inl b /\ allow = true /\
   (size <> 0 -> exists content, f = FFile content /\ off + size <= N.of_nat (length content) /\ b = region content off size).
 Proof. exact fs_read_sound. Qed.
 Print Assumptions C03_fs_sound.
@@ -47,7 +61,7 @@ Print Assumptions C03_fs_sound.
     StatusFileChanged (the mmap reader reports StatusFileError when even the
     offset lies beyond the file); region present with another digest ->
     StatusFileChanged.  All are CorruptReferenceErrors. *)
-Theorem C03_fs_error_class : forall (H : N -> bytes -> bytes),
+Theorem C03_fs_error_class : forall (H : N -> bytes -> option bytes),
   (forall r off size want, fs_read H true r FGone off size want = OCorrupt StFileNotFound) /\
   (forall r content off size want, size <> 0 -> N.of_nat (length content) < off + size ->
      fs_read H true r (FFile content) off size want =
@@ -55,37 +69,41 @@ Theorem C03_fs_error_class : forall (H : N -> bytes -> bytes),
                  | RStd => StFileChanged
                  | RMmap => if N.of_nat (length content) <? off then StFileError else StFileChanged
                  end)) /\
-  (forall r content off size want, size <> 0 -> off + size <= N.of_nat (length content) ->
-     H (c_pref want) (region content off size) <> c_digest want ->
+  (forall r content off size want d, size <> 0 -> off + size <= N.of_nat (length content) ->
+     H (c_pref want) (region content off size) = Some d -> d <> c_digest want ->
      fs_read H true r (FFile content) off size want = OCorrupt StFileChanged).
 Proof. intros H. split; [exact (fs_read_gone H)|split; [exact (fs_read_shrunk H)|exact (fs_read_changed H)]]. Qed.
 Print Assumptions C03_fs_error_class.
 
 (** URL references: data only from a 200/206 answer, only its first [size] bytes,
-    only if they hash to the reference's CID. *)
-Theorem C03_url_sound : forall (H : N -> bytes -> bytes) allow code body size want b,
+    only if they are known to hash to the reference's CID. *)
+Theorem C03_url_sound : forall (H : N -> bytes -> option bytes) allow code body size want b,
   url_read H allow code body size want = OOk b ->
-  sum bytes H (c_pref want) b = want /\ b = firstn (N.to_nat size) body /\
+  sum bytes H (c_pref want) b = Some want /\ b = firstn (N.to_nat size) body /\
   (code = 200 \/ code = 206) /\ size <= N.of_nat (length body) /\ allow = true.
 Proof. exact url_read_sound. Qed.
 Print Assumptions C03_url_sound.
 
-(** Non-vacuity, with a toy hash (sum of the bytes mod 251): an intact block and
-    an intact region are returned; a flipped byte, a truncation, a vanished and
-    a shrunk file are refused with the stated classes. *)
-Definition toyH (_ : N) (b : bytes) : bytes := [fold_left N.add b 0 mod 251].
+(** Non-vacuity, with a toy hash (sum of the bytes mod 251; prefix 9 has no
+    hasher): an intact block and an intact region are returned; a flipped byte, a
+    truncation, a vanished and a shrunk file are refused with the stated classes;
+    under the hasher-less prefix nothing is ever returned. *)
+Definition toyH (pref : N) (b : bytes) : option bytes :=
+  if pref =? 9 then None else Some [fold_left N.add b 0 mod 251].
 Example C03_example :
-  let c := sum bytes toyH 2 [1;2;3] in
+  let c := Cid 2 [6] in
   vget bytes toyH (Some [1;2;3]) c = OOk [1;2;3] /\
   vget bytes toyH (Some [1;2;7]) c = OHashMismatch /\
   vget bytes toyH (Some [1;2]) c = OHashMismatch /\
   vget bytes toyH None c = ONotFound /\
-  let want := sum bytes toyH 2 [20;30] in
+  vget bytes toyH (Some [1;2;3]) (Cid 9 [6]) = OOther /\
+  let want := Cid 2 [50] in
   fs_read toyH true RStd (FFile [10;20;30;40]) 1 2 want = OOk [20;30] /\
   fs_read toyH true RMmap (FFile [10;20;31;40]) 1 2 want = OCorrupt StFileChanged /\
   fs_read toyH true RStd (FFile [10;20]) 1 2 want = OCorrupt StFileChanged /\
   fs_read toyH true RMmap (FFile []) 1 2 want = OCorrupt StFileError /\
   fs_read toyH true RStd FGone 1 2 want = OCorrupt StFileNotFound /\
+  fs_read toyH true RStd (FFile [10;20;30;40]) 1 2 (Cid 9 [50]) = OOther /\
   url_read toyH true 206 [20;30;99] 2 want = OOk [20;30] /\
   url_read toyH true 404 [20;30] 2 want = OCorrupt StFileError /\
   url_read toyH true 206 [20] 2 want = OCorrupt StFileChanged.
